@@ -8,6 +8,8 @@ WORK = '/verif/.work/raftbatch'
 
 def worker(args):
     seeds, n_events, gen = args
+    import resource
+    resource.setrlimit(resource.RLIMIT_AS, (4 << 30, 4 << 30))
     out = []
     for s in seeds:
         try:
@@ -25,7 +27,7 @@ def worker(args):
 def main(first, n, n_events, gen='random_trace'):
     os.makedirs(WORK, exist_ok=True)
     seeds = list(range(first, first + n))
-    nproc = 12
+    nproc = int(os.environ.get('NPROC', '8'))
     parts = [(seeds[i::nproc], n_events, gen) for i in range(nproc) if seeds[i::nproc]]
     with mp.get_context('fork').Pool(len(parts)) as pool:
         res = sorted(x for part in pool.map(worker, parts) for x in part)
